@@ -1,14 +1,15 @@
 #!/bin/sh
-# tools/c19_mutants.sh [--partial]  - binding demonstration for C19: every mutant of mutants/C19/ must make
+# tools/c19_mutants.sh [--partial] [name-pattern]  - binding demonstration for C19: every mutant of mutants/C19/ must make
 # the check report a VIOLATION (exit 1); the proposed fix must make the known finding disappear (exit 0,
 # STALE-FINDING).  --partial runs only the phase that can see the mutant (C19_ONLY, development aid:
 # such a run ends with exit 2 and lists the rejections instead of writing verdicts).
 ROOT="$(cd "$(dirname "$0")/.." && pwd)"
 cd "$ROOT" || exit 2
 PARTIAL=""
-[ "$1" = "--partial" ] && PARTIAL=1
+[ "$1" = "--partial" ] && { PARTIAL=1; shift; }
+PAT="${1:-}"
 fail=0
-for p in mutants/C19/*.patch; do
+for p in mutants/C19/*${PAT}*.patch; do
   n=$(basename "$p" .patch)
   only=""
   if [ -n "$PARTIAL" ]; then
